@@ -62,7 +62,11 @@ public:
     void Run(u64 cycles) {
         idle = false;
         for (u64 i = 0; i < cycles; ++i) {
-            if (idle) {
+            // Fast-forward only when no interrupt request is waiting to be latched: a request raised
+            // by the tick of the cycle that entered the idle loop must be taken on the next cycle,
+            // exactly as if every cycle were stepped individually.
+            if (idle && !interrupt_pending[0] && !interrupt_pending[1] && !interrupt_pending[2] &&
+                !vinterrupt_pending) {
                 u64 skipped = core_timing.Skip(cycles - i - 1);
                 i += skipped;
 
